@@ -351,25 +351,6 @@ def step_plan(solid, env, p):
     return "ok", eps, dict(leaf=lvs[gi].kind, corner=len(on) == 2, u=[(a - b) / dn for a, b in zip(p, ctr)])
 
 
-def extended_hypotenuse(solid, env, p):
-    """known finding: p lies (within the coded tolerance) on the infinite line through corner_1 and corner_2 of a triangle
-    leaf but outside that triangle — `TriangleBoundary._contains` accepts it (no range check on `bary_x + bary_y ≈ 1`)"""
-    for lf in leaves(solid):
-        if lf.kind != "tri":
-            continue
-        o, c1, c2 = [[float(a) for a in pf.eval(env)] for pf in lf.pfs]
-        d1 = (c1[0] - o[0], c1[1] - o[1]); d2 = (c2[0] - o[0], c2[1] - o[1])
-        det = d1[0] * d2[1] - d1[1] * d2[0]
-        if det == 0:
-            continue
-        qx, qy = p[0] - o[0], p[1] - o[1]
-        s_ = (d2[1] * qx - d2[0] * qy) / det
-        t_ = (d1[0] * qy - d1[1] * qx) / det
-        if abs(s_ + t_ - 1) <= 1e-4 and (s_ < -1e-4 or t_ < -1e-4):
-            return True
-    return False
-
-
 def perp_plan(solid, env, p):
     """direction the normal must be perpendicular (segment) / parallel (radial) to, or None when the point is not
     clearly on exactly one smooth boundary piece (corner, junction, near-corner)"""
@@ -423,7 +404,7 @@ def evaluate(ctx, rep, cases, fixed=None):
         for r in rows:
             env = envs[r["env"]]
             pe = {var: [to_fr(a) for a in r["p"]]}
-            ent = dict(case=ci, row=r, a=len(lines), ext=extended_hypotenuse(solid, env, r["p"]))
+            ent = dict(case=ci, row=r, a=len(lines))
             head = f"{ATOL} {RTOL} {BATOL} {bt}"
             lines.append(f"normal {head} {env_tokens(pe)} {env_tokens(env)}")
             delta = Fr(4, 10 ** 6) * max([Fr(1)] + [abs(a) for a in pe[var]])
@@ -497,9 +478,7 @@ def judge(rep, cs, solid, ent, replies):
         return
     nv = r["n"]
     # ---- property oracles (independent of the model of `normal`)
-    fk = "tri_boundary_extended_line" if ent.get("ext") else None      # known finding, see known_findings.d/C06.json
-    if fk:
-        rep.count("points-on-extended-hypotenuse-line")
+    fk = None      # no open finding (known_findings.d/C06.json)
     finite = all(math.isfinite(a) for a in nv)
     if not finite:
         rep.fail(f"normal() returned a non-finite vector {nv} at a boundary point ({r['src']})", inp, detail=dict(normal=nv), finding=fk)
@@ -573,18 +552,6 @@ def run(ctx, rep, cases=None):
     if cases is None:
         cases = [make_case(ctx, i) for i in range(ctx.scale(110, 1200))]
     evaluate(ctx, rep, cases)
-    finding_probe(ctx, rep)
-
-
-def finding_probe(ctx, rep):
-    """known-finding stream: unit triangle ∪ disc around (2,0); the disc point (2,−1) lies on the infinite line through the
-    triangle's edge corner_1-corner_2 — `tri_boundary_extended_line`"""
-    from geomgen import PF, c
-    tri = Node("tri", "x", [PF([c(0), c(0)]), PF([c(1), c(0)]), PF([c(0), c(1)])])
-    cir = Node("circle", "x", [PF([c(2), c(0)]), PF([c(1)])])
-    dom = Node("union", None, [], [tri, cir])
-    case = dict(id=-1, mode="finding-probe", wrap="bdry", dom=dom.describe(), params=[], envs=[{}], n=1, seed=0, m=0)
-    evaluate(ctx, rep, [case], fixed=[[(["2", "-1"], 0)]])
 
 
 def replay(ctx, obj):
